@@ -92,11 +92,13 @@ func init() {
 // exactly as before (C11); usage equals the ledger sum in all cases (C10).
 func vCheckPerWorkload(op string, w *vWorld, done map[string]bool, preAm, preAp map[string]int, removesContainer bool) {
 	vObserve("fault_site", w.site)
-	vAssert("C10,C11/usage-equals-sum-of-recorded-workloads", w.usage["a"] == vLedgerSum(w))
+	for n := range w.st.nodes {
+		vAssert("C10,C11/usage-equals-sum-of-recorded-workloads", w.usage[n] == vLedgerSumOn(w, n))
+	}
 	for id, a := range preAm {
 		wl, recorded := w.st.workloads[id]
 		_, hasContainer := w.applied[id]
-		if done[id] {
+		if done[id] && !done["failed:"+id] {
 			vCover(op+"-part-succeeded", true)
 			vAssert("C11/"+op+"-success-removes-record", !recorded)
 			if removesContainer {
@@ -113,9 +115,9 @@ func vCheckPerWorkload(op string, w *vWorld, done map[string]bool, preAm, preAp 
 	}
 }
 
-// VerifRemoveOp: Calcium.RemoveWorkload over two workloads.  arg: fault=
+// VerifRemoveOp: Calcium.RemoveWorkload over two workloads.  arg: fault=,nodes=<1|2>
 func VerifRemoveOp(arg string) {
-	c, w, _ := vMkWorld(2, vParam(arg, "fault", 14))
+	c, w, _ := vMkWorldOn(2, vParam(arg, "fault", 14), vParam(arg, "nodes", 1))
 	_, preAm, preAp := vSnapshot(w)
 	ch, err := c.RemoveWorkload(context.Background(), []string{"w1", "w2"}, true)
 	done := map[string]bool{}
@@ -124,15 +126,18 @@ func VerifRemoveOp(arg string) {
 			if m.Success && m.WorkloadID != "" {
 				done[m.WorkloadID] = true
 			}
+			if !m.Success && m.WorkloadID != "" {
+				done["failed:"+m.WorkloadID] = true // any part reporting failure must have left the workload alone
+			}
 		}
 	}
 	vCheckPerWorkload("remove", w, done, preAm, preAp, true)
 	vAssert("C20/everything-released", len(w.st.held) == 0)
 }
 
-// VerifDissociateOp: Calcium.DissociateWorkload over two workloads.  arg: fault=
+// VerifDissociateOp: Calcium.DissociateWorkload over two workloads.  arg: fault=,nodes=<1|2>
 func VerifDissociateOp(arg string) {
-	c, w, _ := vMkWorld(2, vParam(arg, "fault", 12))
+	c, w, _ := vMkWorldOn(2, vParam(arg, "fault", 12), vParam(arg, "nodes", 1))
 	_, preAm, preAp := vSnapshot(w)
 	ch, err := c.DissociateWorkload(context.Background(), []string{"w1", "w2"})
 	done := map[string]bool{}
@@ -140,6 +145,9 @@ func VerifDissociateOp(arg string) {
 		for m := range ch {
 			if m.Error == nil && m.WorkloadID != "" {
 				done[m.WorkloadID] = true
+			}
+			if m.Error != nil && m.WorkloadID != "" {
+				done["failed:"+m.WorkloadID] = true
 			}
 		}
 	}
